@@ -1,11 +1,18 @@
 """C09 — every raw syscall wrapper of rusl decodes the kernel's return register exactly.
 
 T: checks/c09_extract.py regenerates the wrapper table (decode skeletons + shared idioms + constants) from
-   /repo/rusl/src into lean/TinyVerif/Gen/Wrappers.lean; Props/C09.lean proves `Spec` for every row
-   (`all_wrappers` by kernel evaluation of the syntactic check, lifted by `chk_sound`).
-C: every exported wrapper (stubs generated from the same table) is called under a fully scripted kernel
+   /repo/rusl/src into lean/TinyVerif/Gen/Wrappers.lean by symbolic interpretation of each wrapper body (let bindings,
+   constants, negations, inverted branches, hoisted sub-expressions normalised); Props/C09.lean proves `Spec` for every
+   row the translator understands (`all_wrappers` by kernel evaluation of the syntactic check, lifted by `chk_sound`).
+C: every exported wrapper (stubs generated from the SIGNATURES only) is called under a fully scripted kernel
    (sc-shim) with every errno 1..=4095 and the success classes, and result + call count are compared with
    the model's `run` on the generated skeleton; `judge` below is the property's own statement.
+Fallbacks (never a skipped obligation, only another source for the model's parameters):
+   * a wrapper body the translator cannot understand is OPAQUE: no Lean row obligation, decided by `judge` alone on what
+     the compiled wrapper does, exhaustively over errnos x all argument variants x success classes x result sequences;
+   * a shared idiom the translator cannot understand gets its `Cfg` field from what the compiled code does (window
+     boundary probed, every errno decoded); `cfgOk` in Lean still demands the standard value.
+   Both are listed in the evidence (`opaque_wrappers`, `observed_idioms`).
 """
 import json
 import os
@@ -16,6 +23,9 @@ from . import c09_extract as X
 M64 = 2**64
 NEG_EBUSY = M64 - 16
 SUCCESS = [0, 1, 2, 15, 16, 17, 4095, 4096, 2**31 - 1, 2**31, 2**32, 2**63, M64 - 4096, M64 - 4097]
+# values whose low 8/16/31/32/33/48/63 bits look like an errno (a decode that narrows before it tests), and k*2^32 - n
+SUCCESS += sorted(({(1 << b) - d for b in (8, 16, 31, 32, 33, 48, 63) for d in (4096, 4095, 17, 16, 1) if (1 << b) - d > 4096}
+                   | {(1 << b) + 16 for b in (16, 32, 48)} | {6 * 2**32 - 13, 3 * 2**32 - 4095, 2**63 + 2**32 - 16}) - set(SUCCESS))
 # spec knowledge that is not in a signature: execve returns only on failure (kernel contract), and the only
 # documented reason to re-issue a call is dup's EBUSY race with open (man dup2: EBUSY)
 ERR_ONLY = {"process::execve"}
@@ -106,19 +116,42 @@ def variants(w):
     return [0, 1] if any("Option<" in p for p in w["params"]) else [0]
 
 
-def neg_variants(w):
-    """the same calls with every signed-integer argument -1 and every bool true (harness VARIANT bit 1)"""
+def mode_variants(w, modes):
+    """harness VARIANT bits 1-2 = argument mode: 1 = signed integers -1 / bools true, 2 = integers 0, 3 = integers MAX / bools true"""
     import re
-    return [v | 2 for v in variants(w)] if any(re.search(r"\b(i32|i64|bool)\b", p) for p in w["params"]) else []
+    if not any(re.search(r"\b(i32|i64|u32|bool)\b", p) for p in w["params"]):
+        return []
+    return [v | (m << 1) for m in modes for v in variants(w)]
+
+
+def neg_variants(w):
+    """the same calls with every signed-integer argument -1 and every bool true"""
+    return mode_variants(w, [1])
 
 
 NEG_ERRNOS = [1, 2, 3, 4, 5, 9, 11, 12, 13, 14, 16, 17, 22, 32, 38, 110, 512, 4095]
 
 
+def seq_cases(ctx, w, vars_):
+    r = ctx.rng
+    seq = []
+    fixed = [[NEG_EBUSY, NEG_EBUSY, 5], [NEG_EBUSY, M64 - 9], [M64 - 4, 0], [M64 - 11, 7], [16, 3], [NEG_EBUSY] * 7 + [16],
+             [2**32 - 16, 1], [NEG_EBUSY] * 20 + [M64 - 1]]
+    pool = [NEG_EBUSY, NEG_EBUSY, 16, 0, 5, M64 - 4, M64 - 11, M64 - 4095, M64 - 4096, 2**32 - 16, 2**31 + 16]
+    for _ in range(12 if ctx.tier == "quick" else 200):
+        fixed.append([r.choice(pool) for _ in range(r.range(1, 6))])
+    for s in fixed:
+        seq.append("seq %s %d %s" % (w["name"], vars_[r.below(len(vars_))], " ".join(tok(v) for v in s)))
+    return seq
+
+
 def gen_cases(ctx, meta, errnos):
+    """cases for the wrappers whose skeleton the translator understands (compared with the model AND judged)"""
     r = ctx.rng
     call, seq = [], []
     for w in X.callable_wrappers(meta):
+        if w["opaque"]:
+            continue
         for var in variants(w):
             for e in errnos:
                 call.append("call %s %d -%d" % (w["name"], var, e))
@@ -128,21 +161,60 @@ def gen_cases(ctx, meta, errnos):
                 extra = [max(0, (1 << k) + d) for k in range(1, 64) for d in (-1, 0, 1)] + [r.below(M64 - 4096) for _ in range(200)]
             for v in SUCCESS + extra:
                 call.append("call %s %d %s" % (w["name"], var, tok(v)))
-        for var in neg_variants(w):
+        for var in mode_variants(w, [1, 2, 3]):
             for e in (NEG_ERRNOS if ctx.tier == "quick" else errnos):
                 call.append("call %s %d -%d" % (w["name"], var, e))
             for v in SUCCESS:
                 call.append("call %s %d %s" % (w["name"], var, tok(v)))
             seq.append("seq %s %d -4 -4 5" % (w["name"], var))
             seq.append("seq %s %d -16 -4" % (w["name"], var))
-        fixed = [[NEG_EBUSY, NEG_EBUSY, 5], [NEG_EBUSY, M64 - 9], [M64 - 4, 0], [M64 - 11, 7], [16, 3], [NEG_EBUSY] * 7 + [16],
-                 [2**32 - 16, 1], [NEG_EBUSY] * 20 + [M64 - 1]]
-        pool = [NEG_EBUSY, NEG_EBUSY, 16, 0, 5, M64 - 4, M64 - 11, M64 - 4095, M64 - 4096, 2**32 - 16, 2**31 + 16]
-        for _ in range(12 if ctx.tier == "quick" else 200):
-            fixed.append([r.choice(pool) for _ in range(r.range(1, 6))])
-        for s in fixed:
-            seq.append("seq %s %d %s" % (w["name"], r.below(len(variants(w))), " ".join(tok(v) for v in s)))
+        seq += seq_cases(ctx, w, variants(w))
     return call, seq
+
+
+def gen_opaque_cases(ctx, meta, errnos):
+    """cases for the OPAQUE wrappers (no model): exhaustive over the errno range for EVERY argument variant (the decode of a
+    body the translator does not understand may depend on an argument), all success classes, result sequences"""
+    r = ctx.rng
+    cases = []
+    for w in X.callable_wrappers(meta):
+        if not w["opaque"]:
+            continue
+        allv = variants(w) + mode_variants(w, [1, 2, 3])
+        extra = [max(0, (1 << k) + d) for k in range(1, 64) for d in (-1, 0, 1)] + [r.below(M64 - 4096) for _ in range(64 if ctx.tier == "quick" else 400)]
+        for var in allv:
+            for e in errnos:
+                cases.append("call %s %d -%d" % (w["name"], var, e))
+            for v in SUCCESS + extra:
+                cases.append("call %s %d %s" % (w["name"], var, tok(v)))
+            cases.append("seq %s %d -4 -4 5" % (w["name"], var))
+            cases.append("seq %s %d -16 -4" % (w["name"], var))
+            cases.append("seq %s %d -16 -16 -16 7" % (w["name"], var))
+            # every errno as the SECOND result after one EBUSY (a retry must decode the later result the same way)
+            if w["name"] in RETRY_DOC:
+                for e in errnos:
+                    cases.append("seq %s %d -16 -%d" % (w["name"], var, e))
+        for _ in range(4):
+            cases += seq_cases(ctx, w, allv)
+    return cases
+
+
+def spec_only(ctx, name, cases, exe, timeout=900):
+    """run cases on the implementation alone and judge every output by the property's own statement"""
+    _, outs, _ = C.run_filter([exe], cases, timeout=timeout)
+    ctx.evaluations += len(cases)
+    st = ctx.extra.setdefault("streams", {})
+    st[name] = {"cases": len(cases), "failures": 0}
+    fails = 0
+    for c, o in zip(cases, outs + ["no-output"] * (len(cases) - len(outs))):
+        why = judge(c, o)
+        if why:
+            st[name]["failures"] += 1
+            fails += 1
+            if fails <= 50:
+                ctx.violation(sig_of(c, o, why), {"case": c, "implementation": o, "why": why, "stream": name,
+                                                 "how_to_replay": "echo '%s' | %s" % (c, exe)})
+    return outs
 
 
 def value_class(r):
@@ -155,15 +227,82 @@ def value_class(r):
     return "large"
 
 
+def signed(v, bits):
+    v %= 1 << bits
+    return v - (1 << bits) if v >= 1 << (bits - 1) else v
+
+
+def observe_idioms(ctx, exe, meta):
+    """Cfg fields the translator could not determine are taken from what the compiled code does (the proof obligation
+    `cfgOk` on them stays): the error window from `is_syscall_error` probed around both ends of the range, the code
+    expressions from every errno decoded by a wrapper that uses the idiom."""
+    unknown = list(meta["unknown"])
+    cfg = meta["cfg"]
+    observed = []
+
+    def ask(lines):
+        _, outs, _ = C.run_filter([exe], lines, timeout=600)
+        ctx.evaluations += len(lines)
+        return outs + ["no-output"] * (len(lines) - len(outs))
+    if "resv" in unknown:
+        probes = list(range(0, 4200)) + [2**31 - 1, 2**31, 2**32 - 4096, 2**32 - 4095, 2**32 - 1, 2**32, 2**63 - 1, 2**63, 2**63 + 1] + \
+            [(1 << b) - d for b in (16, 31, 32, 33, 48, 63) for d in (4096, 4095, 1)] + list(range(M64 - 8300, M64))
+        outs = ask(["iserr %s" % tok(v) for v in probes])
+        ones = sorted(v for v, o in zip(probes, outs) if o == "1")
+        zeros = [v for v, o in zip(probes, outs) if o == "0"]
+        if ones and len(ones) + len(zeros) == len(probes) and ones == list(range(ones[0], M64)) and ones[0] > 2**63 and all(z < ones[0] for z in zeros):
+            cfg["resv"] = M64 - ones[0]
+            observed.append("resv: is_syscall_error is true exactly from -%d to -1 on %d probed registers (window and its neighbourhood contiguous, boundaries of every width)" % (cfg["resv"], len(probes)))
+            unknown.remove("resv")
+    errnos = list(range(1, 4096))
+    users = {"bail": [w["name"] for w in X.callable_wrappers(meta) if w["skel"].startswith("(.bail") and not mode_variants(w, [1])][:3],
+             "coerce": [w["name"] for w in X.callable_wrappers(meta) if w["skel"] == ".coerceFd" and w["acc"] == ""][:3]}
+    if "bailCode" in unknown and users["bail"]:
+        good = True
+        for n in users["bail"]:
+            outs = ask(["call %s 0 -%d" % (n, e) for e in errnos])
+            good = good and all(o == "err %d 1" % e for e, o in zip(errnos, outs))
+        if good:
+            cfg["bailCode"] = ".negI32"
+            observed.append("bailCode: every errno 1..=4095 decoded as Err(errno) by " + ", ".join(users["bail"]))
+            unknown.remove("bailCode")
+    if "coerceCode" in unknown and users["coerce"]:
+        good = True
+        oks = {"i32": True, "u32": True, "i64": True, "u64": True}
+        for n in users["coerce"]:
+            outs = ask(["call %s 0 -%d" % (n, e) for e in errnos])
+            good = good and all(o == "err %d 1" % e for e, o in zip(errnos, outs))
+            outs = ask(["call %s 0 %s" % (n, tok(v)) for v in SUCCESS])
+            for v, o in zip(SUCCESS, outs):
+                for t, (bits, sg) in BITS.items():
+                    exp = signed(v, bits) if sg else v % (1 << bits)
+                    oks[t] = oks[t] and o == "ok %d 1" % exp
+        if good and oks["i32"]:
+            cfg["coerceCode"], cfg["coerceOk"] = ".negI32", "i32"
+            observed.append("coerceCode/coerceOk: every errno decoded as Err(errno), every success class as Ok(res as i32) by " + ", ".join(users["coerce"]))
+            unknown.remove("coerceCode")
+            unknown.remove("coerceOk")
+    if observed:
+        done = {"resv": "is_syscall_error", "bailCode": "bail_on_below_zero!", "coerceCode": "coerce_from_register"}
+        solved = [done[k] for k in done if k in meta["unknown"] and k not in unknown]
+        meta["observed"] = ["%s [not understood statically: %s]" % (o, "; ".join(p for p in meta["problems"] if any(p.startswith(s) for s in solved)))
+                            for o in observed]
+        meta["problems"] = [p for p in meta["problems"] if not any(p.startswith(s) for s in solved)]
+        meta["unknown"] = unknown
+        X.write_lean(meta)
+    return observed
+
+
 def run(ctx):
     global META
     ctx.rule = ("cases = every exported wrapper (x both Option-argument variants) x every errno 1..=4095 forced as the kernel result "
-                "x success classes {0,1,2,15,16,17,4095,4096,2^31-1,2^31,2^32,2^63,-4096,-4097}, plus result sequences "
-                "(EBUSY prefixes, EINTR/EAGAIN then success, seeded random); distinct_nontrivial = distinct "
+                "x success classes {0,1,2,15,16,17,4095,4096,2^31-1,2^31,2^32,2^63,-4096,-4097, 2^b-{4096,4095,17,16,1} for b in 8..63, k*2^32-n}, "
+                "plus signed-argument variants (-1 / 0 / MAX), result sequences (EBUSY prefixes, EINTR/EAGAIN then success, seeded random); "
+                "opaque wrappers: all of that for every argument variant; distinct_nontrivial = distinct "
                 "(wrapper, value class, outcome kind) triples observed on the implementation")
     ctx.assumptions += [
-        "Gen/Wrappers.lean (skeleton per wrapper, decode idioms, LINUX_ERROR_RESV, Errno::EBUSY) is produced by the regex/bracket "
-        "translator checks/c09_extract.py: validated on every run by the differential run of each skeleton against the compiled wrapper, not verified",
+        "Gen/Wrappers.lean (skeleton per wrapper, decode idioms, LINUX_ERROR_RESV, Errno::EBUSY) is produced by the symbolic translator "
+        "checks/c09_extract.py: validated on every run by the differential run of each skeleton against the compiled wrapper, not verified",
         "the scripted kernel (sc-shim handler) replaces the real kernel: results are forced, no system call is executed; memory the kernel "
         "would write (pipe2 fds, uname/stat/termios/timespec buffers) is emulated by the harness",
         "execve returns only on failure (kernel contract): its decode is specified for results in -4095..-1 only",
@@ -175,29 +314,46 @@ def run(ctx):
     callable_ = X.callable_wrappers(meta)
     kinds = {}
     for w in meta["wrappers"]:
-        k = w["skel"].strip("()").split()[0]
+        k = "opaque" if w["opaque"] else w["skel"].strip("()").split()[0]
         kinds[k] = kinds.get(k, 0) + 1
     ctx.extra["wrappers_in_table"] = len(meta["wrappers"])
     ctx.extra["wrappers_called"] = len(callable_)
     ctx.extra["skeleton_kinds"] = kinds
-    ctx.extra["extracted_cfg"] = meta["cfg"]
     ctx.extra["out_of_scope_no_result"] = sorted(w["name"] for w in meta["wrappers"] if w["cat"] == "noresult")
     ctx.extra["skipped_never_returning"] = sorted(w["name"] for w in meta["wrappers"] if w["cat"] == "noreturn")
     ctx.extra["private_reached_through_delegates"] = sorted(w["name"] for w in meta["wrappers"] if not w["pub"] and w["cat"] != "noreturn")
     ctx.extra["not_in_this_build"] = meta["skipped"]
     ctx.extra["payload_post_checks_on_kernel_memory"] = sorted(w["name"] for w in meta["wrappers"] if w["post_checks"])
-    untranslated = [{"wrapper": w["name"], "file": w["file"], "skeleton": w["skel"]} for w in meta["wrappers"] if w["skel"].startswith(".custom")]
-    untranslated += [{"idiom": p} for p in meta["problems"]]
+    opaque = [w for w in meta["wrappers"] if w["opaque"]]
+    ctx.extra["opaque_wrappers"] = [{"wrapper": w["name"], "file": w["file"], "why_not_understood": w["opaque"],
+                                     "decided_by": "run-time correspondence against the property's own statement only (no Lean row obligation)"
+                                     if w["pub"] else "not exported: reached through its exported callers"} for w in opaque]
+    if opaque:
+        ctx.assumptions.append("opaque wrappers (%s): the translator does not understand their bodies; the property is decided for them by calling the "
+                               "compiled wrapper under the scripted kernel with every errno 1..=4095 for every argument variant, all success "
+                               "classes and result sequences — exhaustive over the error range, sampled over success values and arguments"
+                               % ", ".join(w["name"] for w in opaque))
     unreachable = [w["name"] for w in meta["wrappers"] if not w["pub"] and w["cat"] != "noreturn"
                    and not any(v["via"] == w["fn"] and v["file"] == w["file"] for v in meta["wrappers"])]
-    if untranslated:
-        ctx.broken.append({"untranslated": untranslated})
     if unreachable:
         ctx.broken.append({"private_wrappers_without_exported_caller": unreachable})
 
+    exe, err = C.cargo_build(ctx, "c09")
+    observed = []
+    if exe is not None and meta["unknown"]:
+        observed = observe_idioms(ctx, exe, meta)
+    ctx.extra["extracted_cfg"] = meta["cfg"]
+    ctx.extra["observed_idioms"] = observed
+    if observed:
+        ctx.assumptions.append("decode idioms not understood statically; their model parameters are what the compiled code does: " + " | ".join(observed))
+    untranslated = [{"wrapper": w["name"], "file": w["file"], "skeleton": w["skel"]} for w in meta["wrappers"]
+                    if w["skel"].startswith(".custom") and not w["opaque"]]
+    untranslated += [{"idiom": p} for p in meta["problems"]]
+    if untranslated:
+        ctx.broken.append({"untranslated": untranslated})
+
     ok = C.lean_prove(ctx, "TinyVerif.Props.C09", drivers=["drv_c09"])
 
-    exe, err = C.cargo_build(ctx, "c09")
     if exe is None:
         ctx.broken.append({"harness_build_failed": err})
         ctx.violation({"kind": "harness-build-failed"}, {"error": err, "note": "a wrapper whose argument/return types the harness has no dummy for, or rusl does not build"}, no_input=True)
@@ -206,10 +362,12 @@ def run(ctx):
     errnos = list(range(1, 4096))
     call, seq = gen_cases(ctx, meta, errnos)
     idioms = ["const ebusy"] + ["iserr %s" % tok(v) for v in list(range(0, 64)) + list(range(M64 - 4200, M64)) +
-                                [2**31 - 1, 2**31, 2**32 - 1, 2**32, 2**63 - 1, 2**63, 2**63 + 1]]
+                                [2**31 - 1, 2**31, 2**32 - 4096, 2**32 - 4095, 2**32 - 1, 2**32, 2**63 - 1, 2**63, 2**63 + 1]]
     C.correspond(ctx, "idioms", idioms, [exe], drv, judge, sig_of)
     C.correspond(ctx, "forced-result", call, [exe], drv, judge, sig_of)
     C.correspond(ctx, "result-sequences", seq, [exe], drv, judge, sig_of)
+    ocases = gen_opaque_cases(ctx, meta, errnos)
+    oouts = spec_only(ctx, "opaque-wrappers (spec oracle only, exhaustive errnos x argument variants)", ocases, exe) if ocases else []
     # long EBUSY runs (beyond the model's fuel): judged by the property's own statement only
     longs = []
     for w in callable_:
@@ -217,37 +375,31 @@ def run(ctx):
         for n in counts:
             for v in ([5, M64 - 9] if w["name"] in RETRY_DOC else [M64 - 9]):
                 longs.append("long %s 0 %d %s" % (w["name"], n, tok(v)))
-    _, louts, _ = C.run_filter([exe], longs, timeout=600)
-    ctx.evaluations += len(longs)
-    ctx.extra.setdefault("streams", {})["long-ebusy-runs (spec oracle only)"] = {"cases": len(longs), "failures": 0}
-    for c, o in zip(longs, louts + ["no-output"] * (len(longs) - len(louts))):
-        why = judge(c, o)
-        if why:
-            ctx.extra["streams"]["long-ebusy-runs (spec oracle only)"]["failures"] += 1
-            ctx.violation(sig_of(c, o, why), {"case": c, "implementation": o, "why": why, "stream": "long-ebusy-runs",
-                                             "how_to_replay": "echo '%s' | %s" % (c, exe)})
+    spec_only(ctx, "long-ebusy-runs (spec oracle only)", longs, exe, timeout=600)
     # malformed lines must be rejected by both sides, never defaulted
     bad = ["call nope 0 1", "call unistd::close 0", "call unistd::close x 1", "seq unistd::close 0", "call unistd::close 0 18446744073709551616", "frob"]
     C.correspond(ctx, "malformed", bad, [exe], drv, lambda c, o: None if o == "bad-op" else "malformed line accepted", lambda c, o, why: {"kind": "malformed-accepted"})
 
     # coverage numbers from the implementation's own outputs
     _, outs, _ = C.run_filter([exe], call + seq)
-    for c, o in zip(call + seq, outs):
+    allc, allo = call + seq + ocases, outs + oouts
+    for c, o in zip(allc, allo):
         w = c.split()
         r = reg(w[3])
         kind = o.split()[0]
         ctx.count((w[1], value_class(r), kind))
-        sk = META[w[1]]["skel"].strip("()").split()[0]
+        sk = "opaque" if META[w[1]]["opaque"] else META[w[1]]["skel"].strip("()").split()[0]
         ctx.hist("outcomes_by_skeleton_kind", sk + ":" + value_class(r) + ":" + kind)
         ctx.hist("calls_issued", o.split()[-1])
     lossy = sorted({"%s <- %s" % (c.split()[1], c.split()[3]) for c, o in zip(call, outs)
                     if META[c.split()[1]]["cat"] in BITS and not is_err(reg(c.split()[3])) and o.startswith("ok ")
                     and o.split()[1] != str(reg(c.split()[3]))})
     ctx.extra["unrepresentable_success_values_truncated"] = lossy[:40]
+    index = {c: o for c, o in zip(allc, allo)}
     for c in ["call unistd::dup3 0 16", "call unistd::dup3 0 -16", "seq unistd::dup2 0 -16 -16 5", "call process::execve 0 -2",
               "call unistd::open 0 4095", "call unistd::open 0 -4095", "call unistd::read 0 -4096", "call process::wait_pid 0 17"]:
-        if c in call + seq:
-            ctx.sample({"case": c, "implementation": outs[(call + seq).index(c)]})
+        if c in index:
+            ctx.sample({"case": c, "implementation": index[c]})
     if (untranslated or unreachable) and not ctx.violations:
         ctx.violation({"kind": "untranslated"}, {"untranslated": untranslated, "unreachable": unreachable,
                       "note": "the extractor does not recognise this decode; every explored case satisfies the property"}, no_input=True)
